@@ -13,7 +13,8 @@ P["C01"] = dict(
     claimed=True,
     technique="static analysis: exact rational series-reversion identities over the HIR constant tables; MIR "
               "dataflow rules on the registered fwd/inv pairs and the direction dispatch",
-    decides=["R-K0-LINEAR: for merc, lcc, btmerc, butm the forward easting / northing are exactly offset + k_0 * G (G free of k_0, offset exactly x_0 / y_0), and in the inverse every arithmetic expression of the input depends on it only through (input - offset) / k_0 (exact rational-function identities)",
+    decides=["R-CLONE-AGREE (switches): like-named boolean switches of a forward and an inverse function are built from the same tests",
+             "R-K0-LINEAR: for merc, lcc, btmerc, butm the forward easting / northing are exactly offset + k_0 * G (G free of k_0, offset exactly x_0 / y_0), and in the inverse every arithmetic expression of the input depends on it only through (input - offset) / k_0 (exact rational-function identities)",
              "R-INV-DECLARED: `<operator> inv` reaches handle_op_inversion for every invertible built-in",
              
         "T-SERIES: for every PolynomialCoefficients table, inv is the exact series reversion of fwd to n^6 (both orders)",
@@ -67,7 +68,8 @@ P["C06"] = dict(
     claimed=True,
     technique="static analysis: exact checks of the ellipsoid table (f64 grammar, uniqueness, golden a and 1/f), "
               "series reversion identities, meridian-arc coefficients = binom(1/2,k)^2",
-    decides=["R-COINCIDENCE-BOTH: geodesic_inv's coincidence short-cut looks at both coordinate differences",
+    decides=["R-AZIMUTH-ATAN2: the azimuths returned by geodesic_fwd / geodesic_inv are two-argument arctangents",
+             "R-COINCIDENCE-BOTH: geodesic_inv's coincidence short-cut looks at both coordinate differences",
              "R-POLAR-HEIGHT: on the polar axis the height is |Z| - b",
              "R-RF-ZERO-CONVENTION: both ellipsoid constructors divide by a table rf only where rf != 0 is known",
              "R-TABLE-LOOKUP-EXACT: Ellipsoid::named and TriaxialEllipsoid::named look names up by equality",
